@@ -23,7 +23,7 @@ import (
 	"verif/harness/internal/prng"
 )
 
-const slots = 160 // case index = state*slots + corruption index
+const slots = 200 // case index = state*slots + corruption index
 
 // quickStates is the hand-picked state list of the quick tier; further states are random.
 var quickStates = []stateSpec{
@@ -279,7 +279,11 @@ func main() {
 		} else {
 			spec = randomSpec(sr)
 		}
-		st := buildState(spec, sr)
+		st := safeBuild(o, si, spec, sr)
+		if st == nil {
+			states[si] = nil
+			return nil
+		}
 		o.Count(fmt.Sprintf("state:ahead=%d", spec.ahead))
 		o.Count(fmt.Sprintf("state:pool=%d", spec.poolMode))
 		o.Count(fmt.Sprintf("state:%s", spec.k))
@@ -293,6 +297,9 @@ func main() {
 			continue
 		}
 		st := getState(cp.state)
+		if st == nil {
+			continue
+		}
 		base := cp.state * slots
 		names := corruptions(st, prng.ForCase(f.Seed, base))
 		for ci := range names {
@@ -314,6 +321,9 @@ func main() {
 			continue
 		}
 		st := getState(si)
+		if st == nil {
+			continue
+		}
 		for ci := 0; ci < slots; ci++ {
 			k := si*slots + ci
 			if k >= maxK || !f.Want(k) || done[k] {
@@ -343,6 +353,24 @@ var corpus = []struct {
 	{0, "inblock-conflict-after-higher-fee+resigned"}, // [t1,t2], t2.Conflicts={t1} (d0c3ec8)
 	{0, "inblock-conflict-before-lower-fee+resigned"},
 	{6, "dup-last"}, // [a,b,c,c] with the hash of [a,b,c], VerifyTransactions off (ab64b57)
+}
+
+// safeBuild turns a refusal of the valid chain itself (prefix, valid next block, valid headers, a
+// transaction the harness pooled) into an oracle failure instead of a crash of the harness.
+func safeBuild(o *hx.Out, si int, spec stateSpec, r *prng.R) (st *state) {
+	defer func() {
+		if e := recover(); e != nil {
+			msg := fmt.Sprint(e)
+			if strings.HasPrefix(msg, "reference replica refused") || strings.HasPrefix(msg, "replica:") || strings.HasPrefix(msg, "producer:") {
+				o.Case(si * slots)
+				o.Fail("valid-chain-refused", si*slots, "state{%s}: %s", spec, msg)
+				st = nil
+				return
+			}
+			panic(e)
+		}
+	}()
+	return buildState(spec, r)
 }
 
 func hdrLine(h hdrInfo) string {
@@ -399,7 +427,15 @@ func attempt(o *hx.Out, k int, st *state, c *chainT, known []hdrInfo, b *block.B
 		if h, e := c.bc.GetHeader(b.Hash()); e == nil {
 			stored = short(h.Hash()) + "/" + witID(&h.Script)
 		}
-		obs = fmt.Sprintf("ok bh=%d hh=%d stored=%s", after.bh, after.hh, stored)
+		stale := 0 // block transactions still in the mempool
+		for _, t := range b.Transactions {
+			for _, ph := range after.pool {
+				if ph == t.Hash() {
+					stale++
+				}
+			}
+		}
+		obs = fmt.Sprintf("ok bh=%d hh=%d stored=%s stale=%d", after.bh, after.hh, stored, stale)
 	} else {
 		ledger, pool, db := "same", "same", "same"
 		if after.bh != before.bh || after.tip != before.tip || after.root != before.root {
@@ -470,6 +506,10 @@ func runCase(o *hx.Out, k int, st *state, cd *cand, r *prng.R) {
 		o.Sample(fmt.Sprintf("state{%s} corruption{%s}", spec, cd.name))
 	}
 
+	if cd.group == "headers" {
+		runHeadersCase(o, k, st, cd, r, c, known, fail)
+		return
+	}
 	recordedOther := false // a header with a hash other than the valid block's was recorded
 	if cd.decErr {
 		o.Line("undecodable", "ok")
@@ -529,6 +569,10 @@ func runCase(o *hx.Out, k int, st *state, cd *cand, r *prng.R) {
 						key = "known-header-corrupted-witness"
 					}
 					fail(key, "accepted although conjunct %q is false; stored witness %s (valid block's witness %s)", n, witID(&b.Script), witID(&st.next.Script))
+				}
+				// repeated transactions are refused whatever VerifyTransactions says
+				if ok, why := st.mutuallyCompatible(v.txs); !ok && why == "duplicate" && !spec.k.vt {
+					fail("accepted-incompatible:duplicate", "accepted with a repeated transaction (VerifyTransactions off)")
 				}
 				if spec.k.vt {
 					pooled := map[util.Uint256]bool{}
@@ -630,6 +674,9 @@ func runCase(o *hx.Out, k int, st *state, cd *cand, r *prng.R) {
 					}
 				}
 			}
+		}
+		if why := nodeInvariantX(st, c, !spec.k.skip); why != "" {
+			fail("node-invariant-broken", "after AddBlock (%s): %s", res, why)
 		}
 		if res != "ok" {
 			known = st.knownAfter(known, c, b)
